@@ -536,7 +536,11 @@ func genTFNode(t *rapid.T, n *spec.Node, typ tftypes.Object, injected map[string
 	for _, e := range n.Entries {
 		at, ok := typ.AttributeTypes[e.Attr]
 		if !ok {
-			panic(fmt.Sprintf("harness: schema of %s has no attribute %q (have %v)", n.Msg.Name, e.Attr, typ.AttributeTypes))
+			// the generated schema does not describe a field that descriptor and configuration describe: no
+			// conforming object can carry it. The value is drawn without it; the clauses that look at this
+			// attribute (written at all, reported when its type is missing, follows the source) judge.
+			st.probe("schema-lacks-described-attribute")
+			continue
 		}
 		l := label + "." + e.Attr
 		if e.Placeholder {
